@@ -106,6 +106,7 @@ type c01Scenario struct {
 	growAt    [][2]int // (step, new size)
 	switchNum int
 	switchDen int
+	shape     int
 }
 
 func runC01(src *choice.Src, sc *c01Scenario, res *core.Result, prop string) *sumRun {
@@ -114,6 +115,9 @@ func runC01(src *choice.Src, sc *c01Scenario, res *core.Result, prop string) *su
 	w.Backend = sw.UniBackend{}
 	w.Universes = []*sw.Universe{sc.uni}
 	r.s.SwitchNum, r.s.SwitchDen = sc.switchNum, sc.switchDen
+	if sc.shape >= 4 {
+		r.s.SetShape(sc.shape)
+	}
 	m := w.NewMachine()
 	w.Faults = sc.faults
 	w.OnWriteCache = func(c *sw.ClientInfo, file string, data []byte) { w.CheckCacheWrite(prop, c, file, data) }
@@ -337,7 +341,8 @@ func c01Explore(src *choice.Src) *core.Result {
 		sc.size0 = int64(n)
 	}
 	sc.switchNum = 1
-	sc.switchDen = []int{1, 2, 4, 16}[src.Intn(4)]
+	sc.shape = src.Intn(6) // 0-3 random switching, 4-5 priority scheduling (sched.SetShape)
+	sc.switchDen = []int{1, 2, 4, 16, 1, 1}[sc.shape]
 	nclients := src.Weighted(5, 3, 1) + 1
 	for ci := 0; ci < nclients; ci++ {
 		spec := clientSpec{Height: sc.height}
